@@ -78,6 +78,7 @@ try:
         res = "MISSED (rc=0)"
     else:
         res = f"harness rc={rc.returncode}: " + ((rc.stdout + rc.stderr).strip().splitlines() or [""])[-1][:200]
+        print((rc.stdout + rc.stderr)[-3000:])
     out["first_check_result"] = res
     print("check:", res, flush=True)
     keep = out["demo_modified_rc"] not in (0,) and out["demo_unmodified_rc"] == 0 and out["suite_ok"]
